@@ -43,11 +43,15 @@ def check(ctx):
         if isinstance(a, (ast.GeneratorExp, ast.ListComp)) and len(a.generators) == 1:
             it = a.generators[0].iter
         elif isinstance(a, ast.Name):
-            for d in defs_reaching(f, a.id, c):
-                if d.value is not None and isinstance(d.value, (ast.ListComp, ast.GeneratorExp)):
-                    it = d.value.generators[0].iter
-                elif d.value is not None:
-                    it = d.value
+            from ..forms import contributions
+            cs = [x for x in contributions(f, a.id, c) if not x.get("whole")]
+            its = {norm(x["iter"]) for x in cs if x["iter"] is not None}
+            if len(its) == 1 and all(x["iter"] is not None for x in cs):
+                it = cs[0]["iter"]
+            else:
+                for d in defs_reaching(f, a.id, c):
+                    if d.value is not None:
+                        it = d.value
         if it is not None:
             t = norm(it)
             rev = (isinstance(it, ast.Call) and isinstance(it.func, ast.Name) and it.func.id == "reversed") or t.endswith("[::-1]")
